@@ -26,6 +26,8 @@ pub struct Plan {
     pub level: &'static str,
     pub parts: Vec<Part>,
     pub assumptions: Vec<&'static str>,
+    /// C20: additionally compare per-seed transcripts between two batches of worker processes
+    pub cross_process: bool,
 }
 
 pub fn engines() -> Vec<Box<dyn Engine>> {
@@ -201,6 +203,36 @@ pub fn replay_main(path: &str, quiet: bool) -> i32 {
     let profile = doc["profile"].as_str().unwrap_or("").to_string();
     let seed = doc["seed"].as_u64().unwrap_or(0);
     let exp_oracle = doc["expect"]["oracle"].as_str().unwrap_or("").to_string();
+    if eng.name() == "twin" {
+        // in-process twin plus a fresh child process
+        let rep = eng.run_seed(&profile, seed, &prop, false);
+        let child = std::env::current_exe().ok().and_then(|exe| {
+            Command::new(exe)
+                .arg("twinhash")
+                .arg(&profile)
+                .arg(seed.to_string())
+                .output()
+                .ok()
+        });
+        let child_hash: Option<u64> = child
+            .and_then(|o| String::from_utf8(o.stdout).ok())
+            .and_then(|s| s.trim().parse().ok());
+        let same = rep.violation.is_none() && child_hash == Some(rep.trace_hash);
+        if same {
+            if !quiet {
+                println!("NOT-REPRODUCED property={} (transcripts agree: {:#x})", prop, rep.trace_hash);
+            }
+            return 0;
+        }
+        if !quiet {
+            println!(
+                "REPRODUCED property={} oracle={} detail=in-process twin: {:?}; this process {:#x}, fresh process {:?}",
+                prop, exp_oracle, rep.violation.map(|v| v.detail), rep.trace_hash, child_hash
+            );
+            println!("VIOLATION property={} replay={}", prop, path);
+        }
+        return 1;
+    }
     let rep = if doc["case"].is_null() {
         eng.run_seed(&profile, seed, &prop, false)
     } else {
@@ -537,7 +569,39 @@ pub fn check_main(prop: &str, tier: &str, plan: &Plan) -> i32 {
             continue;
         }
         let tp = Instant::now();
-        let r = run_part(prop, part, runs, base, workers, cap, false);
+        let r = run_part(prop, part, runs, base, workers, cap, plan.cross_process);
+        if plan.cross_process {
+            // the same seeds again, in fresh processes, at a different worker count
+            let w2 = (workers / 3).max(1);
+            let r2 = run_part(prop, part, runs, base, w2, cap, true);
+            total_evals += r2.evals;
+            let mut diverged: Vec<u64> = vec![];
+            for (i, h) in &r.trace {
+                if let Some(h2) = r2.trace.get(i) {
+                    if h2 != h {
+                        diverged.push(*i);
+                    }
+                }
+            }
+            *counters.entry("cross_process_transcripts_compared".into()).or_insert(0) +=
+                r.trace.keys().filter(|i| r2.trace.contains_key(i)).count() as u64;
+            if let Some(i) = diverged.first() {
+                let seed = run_seed_for(base, part.engine, part.profile, *i);
+                let viol = Viol {
+                    props: vec![prop.to_string()],
+                    oracle: "cross-process-transcript".into(),
+                    detail: format!(
+                        "run {} (seed {}) produced transcript {:#x} in one worker process and {:#x} in another ({} of {} seeds diverged)",
+                        i, seed, r.trace[i], r2.trace[i], diverged.len(), r.trace.len()
+                    ),
+                };
+                let path = write_replay(prop, part.engine, part.profile, seed, &viol, &Value::Null);
+                violations.push((
+                    part.engine.to_string(),
+                    json!({"i": i, "seed": seed, "oracle": viol.oracle, "detail": viol.detail, "replay": path}),
+                ));
+            }
+        }
         let eng = engine(part.engine);
         rules.push(format!("[{}:{}] {}", part.engine, part.profile, eng.rule(part.profile, prop)));
         components.push(json!({"engine": part.engine, "components": eng.components()}));
